@@ -194,6 +194,7 @@ func (c *client) dial(ctx context.Context, dialer DialConnFunc) (err error) {
 	// losses reported so far concern the conns this one replaces
 	c.lossPending = false
 	c.conn.OnPacket(c.onPacket)
+	verifhook.Point("dial.before-onclose")
 	c.conn.OnClose(c.onConnClose)
 
 	return nil
